@@ -205,10 +205,16 @@ pub fn gen_map(rng: &mut Rng, sh: &Shape) -> MapText {
     m.pre.push(String::new());
     m.pre.push("[Difficulty]".into());
     m.pre.push(format!("HPDrainRate:{}", r1(rng.frange(0.0, 10.0))));
-    if sh.mode == 3 {
+    if sh.mode == 3 && rng.chance(0.05) {
+        m.pre.push(format!("CircleSize:{}", *rng.pick(&[0.0, 0.4, 12.0, 18.0, 19.0, 30.0])));
+    } else if sh.mode == 3 {
         m.pre.push(format!("CircleSize:{keys}"));
     } else {
-        m.pre.push(format!("CircleSize:{}", r1(rng.frange(0.0, 10.0))));
+        if rng.chance(0.06) {
+            m.pre.push(format!("CircleSize:{}", *rng.pick(&[0.0, 0.3, 11.0, 15.0, 18.0, 25.0, -1.0])));
+        } else {
+            m.pre.push(format!("CircleSize:{}", r1(rng.frange(0.0, 10.0))));
+        }
     }
     m.pre
         .push(format!("OverallDifficulty:{}", r1(rng.frange(0.0, 10.0))));
@@ -278,14 +284,20 @@ pub fn gen_map(rng: &mut Rng, sh: &Shape) -> MapText {
     }
     let end = t.max(start + 1000.0);
     if sh.tie_timing {
-        // sections of equal total duration with different beat lengths; beat
-        // lengths re-entered later: what Beatmap::bpm has to break ties on
-        let parts = 2 + rng.usize(3);
-        let span = ((end - first_tp) / parts as f64).floor().max(1.0);
-        let bls = [beat, beat / 2.0, beat * 2.0, beat, 375.0];
+        // sections whose total durations tie in many ways, over up to ten distinct beat lengths,
+        // some re-entered later: what Beatmap::bpm has to break ties on deterministically
+        let many = rng.chance(0.4);
+        let parts = 2 + rng.usize(if many { 9 } else { 3 });
+        let unit = ((end - first_tp) / (parts as f64 * 2.0)).floor().max(1.0);
+        let bls = [
+            beat, beat / 2.0, beat * 2.0, 375.0, 428.0, 545.0, 666.0, 315.0, 272.0, 800.0, beat, 375.0,
+        ];
+        let mut tt = first_tp;
+        let mut order: Vec<usize> = (0..bls.len()).collect();
+        rng.shuffle(&mut order[1..]);
         for k in 1..parts {
-            let tt = first_tp + span * k as f64;
-            let bl = bls[(k + rng.usize(2)) % bls.len()];
+            tt += unit * (1 + rng.usize(3)) as f64;
+            let bl = bls[order[k % bls.len()]];
             m.timing.push(format!("{tt},{bl},4,2,0,100,1,0"));
         }
     } else {
